@@ -528,6 +528,16 @@ def oracle_c15(rows):
     return fails
 
 
+def oracle_no_panic(rows):
+    """no operation panics, whatever its parameters (a time to live of u64::MAX blocks included)"""
+    fails = []
+    for r in rows:
+        for idx, s in enumerate(r["steps"]):
+            if s["rc"] == [2]:
+                fails.append(_fail(r, idx, "%s panicked: %s" % (s["op"]["k"], (s["extra"].get("err") or "")[:200])))
+    return fails
+
+
 def oracle_c17(rows):
     """Expired slates are refused with no state change; slates without a cutoff or with a
     cutoff ahead are never refused as expired; update_wallet_state at a tip at or beyond the
